@@ -29,6 +29,7 @@
 #include <cassert>
 #define private public
 #include "olc_art.hpp"
+#include "art.hpp"
 #include "qsbr.cpp"
 #include "qsbr_ptr.cpp"
 #undef private
@@ -144,6 +145,22 @@ template <unsigned N> static void scenario(const std::uint64_t (&pre)[N], opdesc
     PROP(n256 + s256 == g256, "C10: I256 count = I48 grown - I256 shrunk");
     std::uint64_t entries = 0; for (unsigned i = 0; i < m0.n; i++) if ((ok1 ? m1 : m2).in[i]) entries++;
     PROP(d.template get_node_count<node_type::LEAF>() == entries, "C10: reported number of leaves equals the number of entries after the concurrent phase");
+    // every counter against the unsynchronised index driven through the same calls in the sequential order the results fit (the sweep's probes included): a restarted
+    // attempt must not be counted (seed C10d: the prefix-split counter bumped before the lock upgrades)
+    static unodb::db<std::uint64_t, unodb::value_view> refs[2];     // order A;B and order B;A
+    bool match[2] = {false, false};
+    for (int o = 0; o < 2; o++) {
+      auto& ref = refs[o];
+      for (unsigned i = 0; i < N; i++) { const std::uint8_t v = valbyte(pre[i]); (void)ref.insert(pre[i], vv(&v, 1)); }
+      const opdesc first = o == 0 ? A : B, second = o == 0 ? B : A;
+      for (int j = 0; j < 2; j++) { const opdesc q = j == 0 ? first : second; const std::uint8_t v = valbyte(q.key); if (q.op == INS) (void)ref.insert(q.key, vv(&v, 1)); else if (q.op == REM) (void)ref.remove(q.key); }
+      for (unsigned i = 0; i < m0.n; i++) { const std::uint64_t p = m0.k[i] ^ 0x80; if (midx(m0, p) >= 0) continue; const std::uint8_t v = 7; (void)ref.insert(p, vv(&v, 1)); (void)ref.remove(p); }
+      match[o] = d.get_key_prefix_splits() == ref.get_key_prefix_splits()
+                 && g4 == ref.template get_growing_inode_count<node_type::I4>() && g16 == ref.template get_growing_inode_count<node_type::I16>()
+                 && s4 == ref.template get_shrinking_inode_count<node_type::I4>() && s16 == ref.template get_shrinking_inode_count<node_type::I16>()
+                 && n4 == ref.template get_node_count<node_type::I4>() && n16 == ref.template get_node_count<node_type::I16>();
+    }
+    PROP((ok1 && match[0]) || (ok2 && match[1]), "C10: prefix-split, growth and shrink counters and inner node counts equal those of the same calls issued one at a time in an order that fits the results (a restarted attempt is not counted)");
   }
 #endif
   OBSERVE(rA.ok); OBSERVE(rB.ok);
@@ -197,6 +214,9 @@ static const std::uint64_t P_pfx[] = {0x0200000000000000ULL, 0x0100000000001000U
 SCEN(p_ins_split_child, P_pfx, INS, 0x0100000000003000ULL, INS, 0x0100000700003000ULL)
 SCEN(p_get_split_child, P_pfx, GET, 0x0100000000002000ULL, INS, 0x0100000700003000ULL)
 SCEN(p_rem_split_child, P_pfx, REM, 0x0100000000001000ULL, INS, 0x0100000700003000ULL)
+// an insert that splits the root's key prefix is restarted because another writer changes the node between its read lock and the upgrades
+SCEN(p_split_ins, P_two, INS, 0x0000000000010000ULL, INS, 0x30)
+SCEN(p_split_rem, P_two, INS, 0x0000000000010000ULL, REM, 0x10)
 // a full inner node under a full non-root parent: both grow
 SCEN(n_ins4_ins400, P_nested, INS, 4, INS, 0x400)
 SCEN(n_get2_ins400, P_nested, GET, 2, INS, 0x400)
